@@ -263,6 +263,24 @@ def make_exec(case):
             st.session = db_session(**opts)
             st.session.__enter__()
             return rec
+        if name == 'selmany':
+            # a read made only through filter criteria, possibly returning several objects: ['selmany', attr, value, variant]
+            a = NAMES[op[1] % len(NAMES)]
+            jv = domain_value(a, op[2])
+            if KIND[a] in ('float', 'ref', 'cref', 'bool') or jv is None:
+                return rec
+            rec['attr'] = a
+            variant = op[3] % 3
+            if variant == 0:
+                res = select('x for x in E if x.%s == val' % a, {'E': E}, {'val': to_py(a, jv)})[:]
+            elif variant == 1:
+                res = E.select(**{a: to_py(a, jv)})[:]
+            else:
+                res = select('x for x in E if x.%s == val' % a, {'E': E}, {'val': to_py(a, jv)}).order_by('-x.id')[:]
+            for o in res:
+                st.objs[o.id] = o
+                rec['reads'].append([o.id, a, jv])
+            return rec
         pk = pk_of(op[1])
         if name == 'getkw':
             a = NAMES[op[2] % len(NAMES)]
